@@ -15,7 +15,7 @@ impl<'a> HelpRequest<'a> {
     pub fn from_command(command: &RawCommand<'a>) -> Option<Self> {
 //@ ensures
 //@     // C12: exactly the help-shaped lines are turned into help requests (and therefore never reach the handler)
-//@     (r is Some) == wants_help(command.name_bytes(), command.arg_tokens()),   // [C12,C01]
+//@     (r is Some) == wants_help(command.name_bytes(), command.arg_tokens()),   // [C12,C01,~C17]
 //@     // C12: which help is requested: the command list for `help` alone; for `help <command> ...` the command named
 //@     // by the first argument with the remaining tokens; for `<command> ... -h|--help ...` that very command
 //@     command.name_bytes() == help_word() && command.arg_tokens().len() == 0 ==> r == Some(HelpRequest::All),   // [C12]
